@@ -139,11 +139,14 @@ def delegate(ctx, R):
         R.check(seen == [["V"]] and key(r) == "self", "C15.DELEGATE", f.qual + "(v)", where(f), "%s(v) sets the inner scale's and returns the time scale" % meth, "%s(v) -> %s (inner calls %s)" % (meth, show(r), seen))
     # constructor wiring: default inner scale is a fresh LinearScale
     f = P.func(TS + ".__init__")
-    ev = new_eval(P, inline_filter=lambda fn: not fn.qual.startswith("scale.LinearScale."))
+    ev = new_eval(P, inline_filter=lambda fn: not fn.qual.startswith("scale.LinearScale.") or fn.qual == "scale.LinearScale.__init__")
     st = ev.new_state(module="scale")
     o = ev.instantiate(P.cls(TS), [], {}, st)
     lin = st.heap.get((o.text, "_linear"))
     R.check(isinstance(lin, Opaque) and lin.kind == "new" and lin.cls is P.cls("scale.LinearScale"), "C15.DELEGATE", f.qual, where(f), "a new TimeScale owns a new LinearScale", "TimeScale() gets inner scale %s: not a fresh LinearScale per instance" % show(lin))
+    if isinstance(lin, Opaque):
+        cl = st.heap.get((lin.text, "_clamp"))
+        R.check(cl is not None and key(cl) == "False", "C15.DELEGATE", f.qual + "|inner clamp", where(f), "the default inner scale does not clamp", "TimeScale() builds its inner linear scale with clamp=%s: instants outside the domain are pinned to the range ends, so the map is neither proportional nor strictly increasing there" % (show(cl) if cl is not None else "unset"))
     for p, d in f.defaults.items():
         R.check(isinstance(d, ast.Constant), "C15.DELEGATE", "%s default %s" % (f.qual, p), where(f), "no shared mutable default", "TimeScale.__init__ default `%s=%s` is evaluated once and shared by every instance" % (p, ntext(d)))
 
